@@ -254,4 +254,10 @@ theorem source_disconnect_flag_first :
     "tasks.UnlockAndRemove" ∈ PRV.Gen.C13.onDisconnectCalls ∧
     "OnDisconnect" ∈ PRV.Gen.C13.onDisconnectNotifies ∧ "OnEnd" ∈ PRV.Gen.C13.onDisconnectNotifies := by decide
 
+
+/-- however `Scheduler.Run` ends it stops the relay task it started — the clean-up is a closure, so it sees the task that was
+created *after* the `defer` statement (a deferred call would have been handed the nil of that moment): a session that the
+scheduler ends while `Proxy.Run` is still alive (a failed change of destination) is torn down, pool connections included -/
+theorem source_scheduler_stops_its_proxy_task : PRV.Gen.C13.schedulerRunDefers = ["closure: proxyTask.Stop"] := by decide
+
 end PRV.Props.C13
